@@ -53,7 +53,7 @@ A(id, ty, off, curly) == [id |-> id, ty |-> ty, off |-> off, curly |-> curly]
 
 Rank(ty) ==
     CASE ty \in {"indirect_register", "indirect_register_pre"} -> 2 [] ty = "indirect_indexed_register" -> 3 [] ty = "indirect_numeric" -> 4
-      [] ty = "deferred_numeric" -> 5 [] ty \in {"indexed_register", "indexed_register2"} -> 6 [] ty = "enumeration" -> 7
+      [] ty = "deferred_numeric" -> 5 [] ty \in {"indexed_register", "indexed_register2"} -> 6 [] ty \in {"enumeration", "enumeration0"} -> 7
       [] ty \in {"register", "register_pp", "register_prepp", "register_at"} -> 8        \* a decorated register is a register operand
       [] ty \in {"numeric", "numeric_va", "numeric16"} -> 9 [] ty = "address" -> 10 [] ty = "relative_address" -> 11 [] ty = "numeric_bytecode" -> 12
       [] OTHER -> 99
@@ -72,6 +72,7 @@ Acc(a, t) ==
       [] a.ty = "indexed_register" -> t \in {"r+n", "r+key"}            \* a numeric index: the key is read as a label
       [] a.ty = "indexed_register2" -> t \in {"r+n", "r+key"}           \* index alternatives listed as numeric, enumeration (not in priority order)
       [] a.ty = "enumeration" -> t = "key"
+      [] a.ty = "enumeration0" -> t = "key"         \* an enumeration with an argument dictionary only, whose key is mapped to the value 0
       \* a numeric expression: numbers and labels (an enumeration key is, as text, an identifier, i.e. a label);
       \* NEVER a register name, alone or inside the expression
       \* numeric_va: a numeric operand whose value must be a valid address - the flag changes nothing about what text it accepts
